@@ -156,7 +156,7 @@ func (f *fakeDlqDest) Write(ctx context.Context, recs []opencdc.Record) error {
 		k := kOfPos(r.Position)
 		ps[i] = pend{f.s, k, r.Position}
 		evs[i] = Ev{T: "QW", S: f.s, K: k}
-		if n := f.x.nextDlq(); f.x.c.Dlq.ErrAt > 0 && n == f.x.c.Dlq.ErrAt {
+		if n := f.x.nextDlq(); (f.x.c.Dlq.ErrAt > 0 && n == f.x.c.Dlq.ErrAt) || inSet(f.x.c.Dlq.Fail, f.s, k) {
 			if f.failed == nil {
 				f.failed = map[int]bool{}
 			}
@@ -275,10 +275,16 @@ func (f *fakeSource) Read(ctx context.Context) ([]opencdc.Record, error) {
 	}
 }
 
-func (f *fakeSource) Ack(_ context.Context, positions []opencdc.Position) error {
+// Ack parks like every other connector call; the ack is logged when it is
+// released, i.e. when it reaches the source: two acks of one source that are in
+// flight at the same time arrive in the order the schedule says.
+func (f *fakeSource) Ack(ctx context.Context, positions []opencdc.Position) error {
 	ks := make([]int, len(positions))
 	for i, p := range positions {
 		ks[i] = kOfPos(p)
+	}
+	if err := f.x.sched.Park(ctx, fmt.Sprintf("K%d", f.s), f.spec.SlowAck, nil); err != nil {
+		return err
 	}
 	f.x.log.Add(Ev{T: "A", S: f.s, Ks: ks})
 	return nil
